@@ -16,7 +16,7 @@ def best (pc : Color) (scores : List Score) : Score :=
   scores.foldl (fun acc s => if isBetter pc acc s then s else acc) (worst pc)
 
 /-- `alphabeta` without window and polls -/
-def value : Nat → Board → Move → (rem cur : Nat) → BoardList → Score
+def value (pos : Bool) : Nat → Board → Move → (rem cur : Nat) → BoardList → Score
   | 0, _, _, _, _, _ => .raw 0
   | fuel + 1, old, mv, rem, cur, list =>
     let board := old.moveUnchecked mv
@@ -37,16 +37,16 @@ def value : Nat → Board → Move → (rem cur : Nat) → BoardList → Score
           let m := moves.setMask (board.raw.color pc.flip)
           (m.isEmpty, m)
         else (rem == 0, moves)
-      if isComplete then eval board
-      else best pc ((mvsOf moves).map fun m => value fuel board m (rem - 1) (cur + 1) list)
+      if isComplete then eval pos board
+      else best pc ((mvsOf moves).map fun m => value pos fuel board m (rem - 1) (cur + 1) list)
 
 /-- the score a complete deepening pass at `depth` reports: the best root move by plain minimax -/
-def rootValue (b : Board) (tf : ThreeFold) (depth : Nat) : Score :=
-  best b.turn ((mvsOf (MoveGen.legals b)).map fun m => value (depth + 40) b m depth 1 (BoardList.new b tf))
+def rootValue (pos : Bool) (b : Board) (tf : ThreeFold) (depth : Nat) : Score :=
+  best b.turn ((mvsOf (MoveGen.legals b)).map fun m => value pos (depth + 40) b m depth 1 (BoardList.new b tf))
 
 /-- one deepening pass of `deepen` (its loop body up to and including the closing poll):
 `(some p, st)` when the pass completed, `(none, st)` when a poll cut it short -/
-def pass (k : Nat) (board : Board) (pc : Color) (tf : ThreeFold) (depth : Nat) (bestMv : Option Move)
+def pass (pos : Bool) (k : Nat) (board : Board) (pc : Color) (tf : ThreeFold) (depth : Nat) (bestMv : Option Move)
     (st : St) : Option Pass × St :=
   let p0 : Pass := ⟨worst pc, none, .min, .max⟩
   let moves := MoveGen.legals board
@@ -54,33 +54,33 @@ def pass (k : Nat) (board : Board) (pc : Color) (tf : ThreeFold) (depth : Nat) (
     match bestMv with
     | some mv =>
       let moves := (moves.removeMove mv).1
-      match rootMove k board pc depth tf mv p0 st with
+      match rootMove pos k board pc depth tf mv p0 st with
       | (none, st) => (true, p0, moves, st)
       | (some p, st) => (false, p, moves, st)
     | none => (false, p0, moves, st)
   if stop then (none, st) else
   let moves := moves.setMask (board.raw.color pc.flip)
-  let (p2, moves, st) := rootLoop k board pc depth tf 5000 moves p1 st
+  let (p2, moves, st) := rootLoop pos k board pc depth tf 5000 moves p1 st
   let moves := moves.setMask BB.full
-  let (p3, _, st) := rootLoop k board pc depth tf 5000 moves p2 st
+  let (p3, _, st) := rootLoop pos k board pc depth tf 5000 moves p2 st
   let (done, st) := poll k st
   if done then (none, st) else (some p3, st)
 
 /-- the (depth, score) of every pass the deepening loop completes, in order -/
-def completed (k : Nat) (board : Board) (pc : Color) (tf : ThreeFold) :
+def completed (pos : Bool) (k : Nat) (board : Board) (pc : Color) (tf : ThreeFold) :
     Nat → (depth : Nat) → (bestMv : Option Move) → St → List (Nat × Score)
   | 0, _, _, _ => []
   | passes + 1, depth, bestMv, st =>
-    match pass k board pc tf depth bestMv st with
+    match pass pos k board pc tf depth bestMv st with
     | (none, _) => []
     | (some p3, st) =>
       (depth, p3.score) ::
         (match p3.score with
          | .blackMateIn _ | .whiteMateIn _ => []
-         | _ => completed k board pc tf passes (if depth + 1 ≥ 65535 then 65535 else depth + 1) p3.best st)
+         | _ => completed pos k board pc tf passes (if depth + 1 ≥ 65535 then 65535 else depth + 1) p3.best st)
 
-/-- the completed passes of `search board tf k` -/
-def searchPasses (board : Board) (tf : ThreeFold) (k : Nat) : List (Nat × Score) :=
-  completed k board board.turn tf (k + 2) 0 none ⟨0, 0⟩
+/-- the completed passes of `search pos board tf k` -/
+def searchPasses (pos : Bool) (board : Board) (tf : ThreeFold) (k : Nat) : List (Nat × Score) :=
+  completed pos k board board.turn tf (k + 2) 0 none ⟨0, 0⟩
 
 end Chess.Engine
